@@ -42,6 +42,13 @@ def gen_case(rng, kind=None, rules=False):
     if kind in ("vssa", "dvssa"): case["volume"] = {"type": "base", "V0": rng.choice([0.25, 0.5, 1.0, 2.0, 4.0])}
     if kind == "dvssa" and rng.random() < 0.5:
         case["volume"] = {"type": "tt", "cycle": rng.choice([1.0, 2.0, 4.0]), "avg": rng.choice([1.3, 2.0, 50.0]), "noise": rng.choice([0.0, 0.1]), "V0": 1.0}
+    # a ramping constant: an ODE rule whose target is a PARAMETER writes no species, so rows stay reaction paths in every simulator
+    # (seeded change S7_C06: the volume-aware variant of the rule wrote its increment into the species vector)
+    if rng.random() < 0.2:
+        spec["parameters"] = dict([("rq", 0.5)] + list(spec["parameters"].items())) if rng.random() < 0.5 else dict(list(spec["parameters"].items()) + [("rq", 0.5)])
+        spec["rules"] = [["ode", {"equation": rng.choice(["0.0625", "0.125"]), "target": "rq"}]]
+        ma = [rx for rx in spec["reactions"] if rx["type"] == "massaction"]
+        if ma and rng.random() < 0.5: rng.choice(ma)["params"]["k"] = "rq"
     if rng.random() < 0.3: case["warmup"] = True       # a throwaway run on the same model / interface first
     # reactions with equal parameter dictionaries handed to the Model as ONE dict object (rate = {"k": 0.7} reused in several
     # tuples): the model must not write into it (seeded change S6_C06)
